@@ -32,6 +32,9 @@ EXTRA_STANDINS = {
     "xreg": {"props": XREG_PROPS, "short": "real registration + report text, every model hierarchy up to the bound",
              "unit_of_count": "hierarchies", "scenario_word": "model hierarchy",
              "what": "contracts/xreg.rs: real text of simulation::add_model, BuildContext, SimInit::add_model, Simulation::{new,run} cut from /repo with no rewrite rule, compiled against executable stubs, run on every model hierarchy up to the bound. LABELLED BOUNDED: not part of obligations/discharged."},
+    "xsched": {"props": {"C08", "C09", "C10"}, "short": "real text of the scheduling requests and action kinds, every request up to the bound",
+               "unit_of_count": "requests", "scenario_word": "request",
+               "what": "contracts/xsched.rs: real text of GlobalScheduler::{time, schedule_from, schedule_*_event_from}, ActionKey, Action, ActionInner and its periodic/keyed impls, process_event, send_keyed_event, InputFn and util/priority_queue.rs cut from /repo with no rewrite rule, compiled against executable stubs (a Sender that delivers at once); every request up to the bound compared with the statements of C08/C09/C10. LABELLED BOUNDED: not part of obligations/discharged."},
     "xpq": {"props": {"C20", "C07"}, "short": "real text of both priority queues, every operation sequence up to the bound",
             "unit_of_count": "operation sequences", "scenario_word": "operation sequence",
             "what": "contracts/xpq.rs: util/priority_queue.rs and util/indexed_priority_queue.rs, each file whole up to its test module, cut from /repo with no rewrite rule and compiled as they stand; every operation sequence up to the bound compared with a reference list. LABELLED BOUNDED: not part of obligations/discharged."},
@@ -133,6 +136,13 @@ def classify(tmpl, asm, res):
             undecided.append("prelude function %s does not verify (%s)" % (fn, d.kind))
             continue
         clause = "\n".join(t["text"] for t in clause_sp.get("text", []))
+        if not same_file and len(props) > 1:
+            # an obligation of the verifier's own library (arithmetic overflow, index in bounds, unwrap of None ...) at a
+            # site that serves several properties: it says that the code may panic there, not WHICH property that breaks.
+            # Reported as undecided, never as a violation of every property the function is registered for.
+            undecided.append("unattributed library obligation fails in %s (line %d of the assembled file): %s [%s:%s]" % (
+                fn, site_line, (d.message or "")[:80], os.path.basename(clause_sp.get("file_name", "")), clause_sp.get("line_start")))
+            continue
         if not same_file:
             clause = "\n".join(t["text"] for t in site_sp.get("text", [])) + "  [clause in vstd: %s:%s %s]" % (
                 clause_sp.get("file_name"), clause_sp.get("line_start"), " ".join(t["text"].strip() for t in clause_sp.get("text", [])))
@@ -404,6 +414,12 @@ def evaluate(prop, tier, tmpls, unit_cache, kani_cache):
                     f.input = "%s: %s\nobserved: %s\nbound: %s" % (xdef["scenario_word"], json.dumps(xf["scenario"]), xf["detail"], xe["bound"])
                     all_fail.append((f, {"drift": {r["unit"]: r["drift"] for r in results if r["drift"]}, "path": os.path.join(BUILD, xname + "_unit.rs")}))
     xr = extra.get("xreg")
+    # a concrete failing input found by a stand-in for this property also documents the obligations Verus refuted for it
+    ex_inputs = [f.input for f, _ in all_fail if f.backend.startswith("rustc") and f.input]
+    if ex_inputs:
+        for f, _ in all_fail:
+            if f.input is None and f.backend == "verus":
+                f.input = "found by a bounded stand-in on the real text (same property):\n" + ex_inputs[0]
     if xfails:
         # a concrete scenario on which the real text contradicts the property statement (bounded search):
         # it becomes the failing input of the obligations Verus refuted for this property, and a
